@@ -80,8 +80,18 @@ def run(ctx, chk, tier="quick"):
                 if d in (sy, tr):
                     return d
                 return None
+            # names of the enclosing function that the integrand closes over: bound once there to an expression of the parameters
+            def closure_value(name_node):
+                if name_node.id in (arg, et, curv) or name_node.id in f.params:
+                    return None
+                stores = [n for n in ast.walk(f.node) if isinstance(n, ast.Assign) and len(n.targets) == 1 and isinstance(n.targets[0], ast.Name)
+                          and n.targets[0].id == name_node.id]
+                other = [n for n in ast.walk(f.node) if isinstance(n, ast.Name) and isinstance(n.ctx, ast.Store) and n.id == name_node.id]
+                if len(stores) == 1 and len(other) == 1 and enclosing_func(stores[0]) is f.node:
+                    return stores[0].value
+                return None
             try:
-                got = py_poly(body, callname=callname)
+                got = py_poly(body, resolve=closure_value, callname=callname)
                 spec = ast.parse("%s(%s) / (-%s - %s * %s(%s))" % (sy, arg, et, curv, tr, arg), mode="eval").body
                 want = py_poly(spec, callname=callname)
                 chk.ob("C18.O1", got == want, where_of(f, inode), "integrand = %s" % got.key(), want.key(),
